@@ -911,6 +911,12 @@ def check_c12(pid, tier, build, props):
         if len(data) != len(base[1]):
             problems.append("different number of inputs under seeds %s and %s" % (base[0], hs))
             continue
+        for k, inp, d in data:
+            if k == "pipeline-model" and d != "agree" and len(violations) < 5:
+                violations.append({"kind": k, "input": d,
+                                   "witness": {"reason": "under this hash seed the implementation's state differs from "
+                                                         "the pipeline model (a function of the input graph alone)",
+                                               "PYTHONHASHSEED": [hs]}})
         for (k1, inp1, d1), (k2, inp2, d2) in zip(base[1], data):
             if inp1 != inp2:
                 problems.append("harness generated different inputs under different hash seeds")
@@ -949,7 +955,11 @@ def check_c12(pid, tier, build, props):
                        "(universal lemmas over the models). NOT proved and named as such: the sites of class "
                        "'fixpoint' (dominator work-list and entries order, _imm_doms pruning, "
                        "prune_unreachable) and CPython's string hashing itself - the runtime behaviour the model "
-                       "cannot exhibit; these rest on the cross-seed runs only.",
+                       "cannot exhibit; these rest on the cross-seed runs only. In addition, under every hash seed the "
+                       "implementation's whole state after each restructuring stage (names, nesting, dictionary "
+                       "order, tables, counters) is compared with Model/Pipe.v, a Gallina FUNCTION of the input graph "
+                       "alone (kind 'pipeline-model' in inputs_by_kind): agreement under all seeds is determinism "
+                       "of the restructuring stages on those graphs.",
     }
     return {"coverage": coverage, "violations": violations, "problems": problems, "level": "proof",
             "wall_s": t.s(), "broken_name": "Props/C12.v (C12_sites_covered) / cross-seed comparison"}
